@@ -1002,6 +1002,18 @@ def fitted_state_checks(R, est, label, D, stats, budget, refit=True, note=True):
     return took
 
 
+OPTION_VARIANTS = {
+    "NaiveForecaster": [{"strategy": "mean"}, {"strategy": "drift"}, {"strategy": "mean", "sp": 2, "window_length": 4},
+                        {"strategy": "last", "sp": 3}, {"strategy": "drift", "window_length": 5}],
+    "Imputer": [{"method": m} for m in ("mean", "median", "ffill", "bfill", "linear", "nearest", "random", "drift")] +
+               [{"method": "constant", "value": 1.5}],
+    "Deseasonalizer": [{"model": "multiplicative"}],
+    "PolynomialTrendForecaster": [{"degree": 2}, {"with_intercept": False}],
+    "EnsembleForecaster": [{"aggfunc": a} for a in ("median", "min", "max")],
+    "Detrender": [],
+}
+
+
 def perturbed_fit_checks(R, cls, base, D, stats, rng, how_many, budget):
     """fit with one numeric constructor argument moved off its default: the frame must hold for every assignment"""
     numeric = [p for p, d in init_params(cls).items() if p not in base and isinstance(d, (bool, int, float))
@@ -1253,6 +1265,14 @@ def run_all(R, tier, seed, only=None):
                 took = fitted_state_checks(R, fresh, cls.__name__, D, stats, budget)
                 if took is not None and took < (0.15 if quick else 1.5):
                     perturbed_fit_checks(R, cls, base, D, stats, rng, 4 if quick else 100, budget)
+                # option strings select different code paths of fit: the frame must hold on each of them
+                for opts in OPTION_VARIANTS.get(cls.__name__, ()):
+                    try:
+                        var = cls(**dict(base, **opts))
+                    except Exception:
+                        continue
+                    fitted_state_checks(R, var, f"{cls.__name__}({', '.join(f'{k}={v!r}' for k, v in opts.items())})", D, stats, budget,
+                                        refit=False, note=False)
                 if not quick and kind_of(default) == "forecaster":
                     fitted_state_checks(R, cls(**base), cls.__name__ + " fitted without fh", dict(make_data(seed + 2, 5), fh=None), stats, budget,
                                         note=False)
